@@ -145,11 +145,37 @@ type Sched struct {
 	KeepTrace bool
 	Trace     []Event
 
+	noYield int   // >0: yields return at once (atomic section of the running task)
+	hold    *Hold // optional: park one task at one point until a gate opens
+
 	StallAfter time.Duration
 	HardLimit  time.Duration
 	leaked     bool
 	timer      *time.Timer
 }
+
+// Hold parks Task the first time it reaches Point and keeps it there until Gate reports true.
+type Hold struct {
+	Task  *Task
+	Point Point
+	Gate  func() bool
+	Hit   bool
+}
+
+// SetHold installs a hold (one per run).
+func (s *Sched) SetHold(h *Hold) { s.hold = h }
+
+// Atomic runs f without any yield (observations that must not interleave with other tasks).
+//
+//go:norace
+func (s *Sched) Atomic(f func()) {
+	s.noYield++
+	defer s.atomicEnd()
+	f()
+}
+
+//go:norace
+func (s *Sched) atomicEnd() { s.noYield-- }
 
 // active is the scheduler the fox hooks talk to. Only one simulated run exists per process at a time.
 var active *Sched
@@ -246,6 +272,15 @@ func (s *Sched) Yield(pt Point) {
 		return
 	}
 	s.PointHits[pt]++
+	if s.noYield > 0 {
+		return
+	}
+	if h := s.hold; h != nil && !h.Hit && h.Task == t && h.Point == pt {
+		h.Hit = true
+		s.Note("hold", pt.String())
+		s.WaitUntil("hold gate", h.Gate)
+		return
+	}
 	if s.Disabled[pt] {
 		return
 	}
@@ -587,3 +622,19 @@ func (s *Sched) killAll() {
 	}
 	s.cur = nil
 }
+
+// Counter is a harness-side shared counter whose accesses are invisible to the race detector (it belongs to the
+// simulator, not to the system under test).
+type Counter struct{ n int }
+
+//go:norace
+func (c *Counter) Inc() { c.n++ }
+
+//go:norace
+func (c *Counter) Set(v int) { c.n = v }
+
+//go:norace
+func (c *Counter) Get() int { return c.n }
+
+// AtLeast returns a gate condition.
+func (c *Counter) AtLeast(v int) func() bool { return func() bool { return c.Get() >= v } }
